@@ -5,6 +5,7 @@ package main
 // pcapgo readers (panic recovery, per-case time limit, allocation measurement).
 
 import (
+	"bytes"
 	"encoding/binary"
 	"encoding/hex"
 	"errors"
@@ -200,6 +201,7 @@ type pcapRun struct {
 	hung     bool
 	allocs   []uint64 // TotalAlloc delta of NewReader and of each read call
 	shapeBad string
+	laterBad string // a copying read whose data, kept as returned, differs after the later reads
 }
 
 type pktReader interface {
@@ -291,6 +293,16 @@ func runReaderInline(format string, zc bool, maxCalls int, rd io.Reader, measure
 		default:
 			panic("format " + format)
 		}
+		var snaps [][]byte
+		var kept []int
+		defer func() {
+			for j, idx := range kept {
+				if idx < len(run.res) && !bytes.Equal(run.res[idx].data, snaps[j]) {
+					run.laterBad = fmt.Sprintf("call=%d data kept from the copying read changed after later reads", idx)
+					break
+				}
+			}
+		}()
 		for i := 0; i < maxCalls; i++ {
 			var data []byte
 			var ci gopacket.CaptureInfo
@@ -310,7 +322,13 @@ func runReaderInline(format string, zc bool, maxCalls int, rd io.Reader, measure
 			if err == nil {
 				res.sec, res.nsec = ci.Timestamp.Unix(), int64(ci.Timestamp.Nanosecond())
 				res.caplen, res.length = ci.CaptureLength, ci.Length
-				res.data = append([]byte(nil), data...)
+				if zc {
+					res.data = append([]byte(nil), data...) // only valid until the next call
+				} else {
+					res.data = data // a copying read hands out a value: kept as returned, looked at again after the last read
+					snaps = append(snaps, append([]byte(nil), data...))
+					kept = append(kept, len(run.res))
+				}
 				if len(data) != ci.CaptureLength || ci.CaptureLength > ci.Length {
 					run.shapeBad = fmt.Sprintf("call=%d;datalen=%d;caplen=%d;len=%d", i, len(data), ci.CaptureLength, ci.Length)
 				}
